@@ -609,15 +609,13 @@ Definition admissible (from_inside : bool) (ilt : linktype) (eg : option iface) 
   | None => false
   | Some e =>
     if from_inside then scope_eqb (if_scope e) External && negb seg_change
+    else if seg_change then
+      match ilt, if_lt e with
+      | Core, Child | Child, Core | Child, Child => true | _, _ => false end
     else
-      negb (scope_eqb (if_scope e) Internal) &&
-      (if seg_change then
-         match ilt, if_lt e with
-         | Core, Child | Child, Core | Child, Child => true | _, _ => false end
-       else
-         match ilt, if_lt e with
-         | Core, Core | Child, Parent | Parent, Child | Child, Peer | Peer, Child => true
-         | _, _ => false end)
+      match ilt, if_lt e with
+      | Core, Core | Child, Parent | Parent, Child | Child, Peer | Peer, Child => true
+      | _, _ => false end
   end.
 
 (** the hop the packet is forwarded along: (effective segment change?, egress id), computed
@@ -713,18 +711,18 @@ Definition c05_ok (c : cfg) (ing : ingress) (p : pkt) (r : result) : bool :=
   let dst_local := p_dst_ia p =? c_ia c in
   match r with
   | Forward e _ _ =>
-    match ing with
-    | InExt _ =>
-      negb src_local && Bool.eqb (e =? 0) (is_last_hop p && dst_local) &&
-      Bool.eqb (is_last_hop p) dst_local
-    | _ =>
+    if ing_ifid ing =? 0 then
+      (* from inside the AS: internal network or a sibling router *)
       (if is_first_hop p then src_local
-       else match ing, claimed_ingress p with
-            | InSib _, Some id => owner_is_sibling_link c ing id
-            | _, _ => false
+       else match claimed_ingress p with
+            | Some id => owner_is_sibling_link c ing id
+            | None => false
             end) &&
       negb dst_local
-    end
+    else
+      (* from another AS *)
+      negb src_local && Bool.eqb (e =? 0) (is_last_hop p && dst_local) &&
+      Bool.eqb (is_last_hop p) dst_local
   | _ => true
   end.
 
